@@ -110,9 +110,7 @@ theorem evalFoot_execP {w0 w : World} (ef : EvalFoot w0 w) :
         · refine wp_call_any fun r2 => ?_
           have ef3 := EvalFoot.step_of_core (core_inert _ .waitpid r2 (.inr (.inl rfl))) ef2
           refine ⟨ef3, ?_⟩
-          split
-          · split <;> exact ef3
-          · exact ef3
+          split <;> exact ef3
         · exact ef2
       · intro res w3 ef3
         cases devnull with
@@ -151,8 +149,8 @@ theorem evalFoot_toProg {α} (t : Ask α) {w0 w : World} (ef : EvalFoot w0 w) :
 
 /-- **Evaluation under every fault plan**: after every call the world is in the footprint of the world evaluation
 started in; the result is `evalR` on some answers. -/
-theorem wp_evalFoot (env : Env) (tf : Int → Option Bytes) (e : Expr) (m : Msg) (fl : MFlags) (w : World) :
-    wp (EvalFoot w) (evalP env tf e m fl) (fun v w' => EvalFoot w w' ∧ ∃ as, v = (evalR env tf e m fl as).1) w :=
+theorem wp_evalFoot (env : Env) (e : Expr) (m : Msg) (fl : MFlags) (w : World) :
+    wp (EvalFoot w) (evalP env e m fl) (fun v w' => EvalFoot w w' ∧ ∃ as, v = (evalR env e m fl as).1) w :=
   evalFoot_toProg _ (EvalFoot.refl w)
 
 end Mdsort.Proofs.World
